@@ -37,6 +37,7 @@ type sigInfo struct {
 	what   string
 	replay string
 	first  interface{}
+	size   int
 }
 
 // Run is one execution of one property check.
@@ -58,6 +59,10 @@ type Run struct {
 	exhaustive  bool
 	maxSamples  int
 	distinct    map[string]struct{}
+
+	// GoTest, when set, renders a recorded case as a plain Go unit test that uses only alttpo/snes
+	// API (no explorer); it is written next to the replay file as <replay>.go.txt.
+	GoTest func(c interface{}, sig, what string) string
 }
 
 func New(id, tier, level string) *Run {
@@ -143,13 +148,21 @@ func (r *Run) Incomplete(why string) {
 // wrong behaviour (alternative model / quirk set); "unexplained:<class>" when no
 // alternative model reproduces it. Only the first case per signature is kept as replay.
 func (r *Run) Violation(sig, what string, replay interface{}) {
+	r.ViolationSized(sig, what, replay, 0)
+}
+
+// ViolationSized is Violation with a size (path length, number of calls ...): per signature the
+// smallest case seen is the one kept as replay, so the recorded counterexample is the shortest.
+func (r *Run) ViolationSized(sig, what string, replay interface{}, size int) {
 	r.mu.Lock()
 	defer r.mu.Unlock()
 	s := r.sigs[sig]
 	if s == nil {
-		s = &sigInfo{what: what, first: replay}
+		s = &sigInfo{what: what, first: replay, size: size}
 		r.sigs[sig] = s
 		r.sigOrder = append(r.sigOrder, sig)
+	} else if size < s.size {
+		s.what, s.first, s.size = what, replay, size
 	}
 	s.count++
 }
@@ -168,6 +181,14 @@ func (r *Run) writeReplay(sig string, s *sigInfo) string {
 	b, _ := json.MarshalIndent(doc, "", " ")
 	_ = os.MkdirAll(filepath.Dir(p), 0o755)
 	_ = os.WriteFile(p, b, 0o644)
+	if r.GoTest != nil {
+		func() {
+			defer func() { _ = recover() }()
+			if src := r.GoTest(s.first, sig, s.what); src != "" {
+				_ = os.WriteFile(p[:len(p)-5]+"_test.go.txt", []byte(src), 0o644)
+			}
+		}()
+	}
 	return p
 }
 
